@@ -28,6 +28,8 @@ def gen_cases(tier, seed):
         cases.append({"part": "records", "seed": seed * 9001 + i, "n": 6 if q else 30})
     for i in range(n):
         cases.append({"part": "regs", "seed": seed * 9011 + i, "lists": 30 if q else 120})
+    for i in range(4 if q else 32):
+        cases.append({"part": "quantreg", "seed": seed * 9013 + i, "lists": 60 if q else 400})
     return cases
 
 
@@ -345,8 +347,105 @@ def run_regs(case):
             "sample": {"part": "regs", "ops": c.get("ops_decoded", 0)}}
 
 
+def run_quantreg(case):
+    """OFM_SCALE of a re-quantising operation (QUANTIZE lowered to a 1x1 average pool with fused_quantize): pooling operations with float32 / float scales go
+    through the public command stream generator; the decoded (multiplier, shift) must denote QuantizeMultiplier(double(ifm_scale) / double(ofm_scale)),
+    the TFLite reference derivation for Requantize, within 2^-31 of the real ratio"""
+    from ethosu.vela import api
+
+    from vv import decode, isa, opgen
+
+    rng = np.random.default_rng(np.random.SeedSequence([909, case["seed"]]))
+    viol = {}
+    counters = {"requant_registers_checked": 0, "requant_inexact_float32_ratios": 0}
+    keys = set()
+    sample = None
+    accs = list(isa.ACCEL)
+    dts = [(api.NpuDataType.INT8, api.NpuDataType.INT8), (api.NpuDataType.INT8, api.NpuDataType.UINT8), (api.NpuDataType.UINT8, api.NpuDataType.INT8),
+           (api.NpuDataType.INT16, api.NpuDataType.INT16), (api.NpuDataType.INT16, api.NpuDataType.INT8), (api.NpuDataType.INT8, api.NpuDataType.INT16)]
+
+    def fm(dt, addr, scale, zp, h, w, c):
+        f = api.NpuFeatureMap()
+        f.data_type = dt
+        f.shape = api.NpuShape3D(height=h, width=w, depth=c)
+        f.tiles = api.NpuTileBox(width_0=w, height_0=h, height_1=h, addresses=[addr, 0, 0, 0])
+        f.region = 1
+        f.layout = api.NpuLayout.NHWC
+        f.quantization = api.NpuQuantization(scale_f32=scale, zero_point=zp)
+        return f
+
+    for li in range(case["lists"]):
+        acc = accs[int(rng.integers(0, len(accs)))]
+        ops, exp = [], []
+        for _ in range(int(rng.integers(1, 9))):
+            idt, odt = dts[int(rng.integers(0, len(dts)))]
+            k = int(rng.integers(0, 5))
+            if k == 0:
+                a, b = float(rng.uniform(0.001, 0.5)), float(rng.uniform(0.001, 0.5))
+            elif k == 1:
+                a = float(np.exp(rng.uniform(np.log(1e-4), np.log(4.0))))
+                b = a * float(rng.choice([0.5, 2.0, 1.0, 3.0, 1 / 3.0, 255.0 / 256.0]))
+            elif k == 2:
+                a, b = 1 / 255.0, float(rng.uniform(0.01, 0.05))
+            elif k == 3:
+                a = float(rng.uniform(0.001, 0.5))
+                b = float(np.nextafter(np.float32(a), np.float32(1.0)))
+            else:
+                a, b = float(rng.choice([0.0123, 0.05, 0.1, 0.007843])), float(rng.choice([0.0457, 0.013, 0.3, 0.02]))
+            ty = int(rng.integers(0, 3))
+            conv = [np.float32, float, np.float64][ty]
+            a32, b32 = np.float32(a), np.float32(b)
+            sa, sb = (conv(a32), conv(b32))  # the values are float32-representable whatever type carries them (scales come from the flatbuffer's float fields)
+            h, w, c = int(rng.choice([1, 4, 8])), int(rng.choice([1, 4, 8])), int(rng.choice([4, 16, 24]))
+            op = api.NpuPoolingOperation(api.NpuPoolingOp.AVERAGE)
+            isz = 2 if idt == api.NpuDataType.INT16 else 1
+            op.ifm = fm(idt, 0, sa, int(rng.integers(-5, 6)) if isz == 1 and idt != api.NpuDataType.UINT8 else (int(rng.integers(0, 200)) if isz == 1 else 0), h, w, c)
+            op.ofm = fm(odt, 0x10000, sb, 0 if odt == api.NpuDataType.INT16 else int(rng.integers(0, 100)) - (50 if odt == api.NpuDataType.INT8 else 0), h, w, c)
+            op.kernel = api.NpuKernel(1, 1)
+            op.padding = api.NpuPadding(top=0, left=0, bottom=0, right=0)
+            op.fused_quantize = True
+            op.rounding_mode = api.NpuRoundingMode.TFL
+            cfgs = api.npu_find_block_configs(op, api.NpuAccelerator[opgen.ACC_API[acc]])
+            if not cfgs:
+                continue
+            op.block_config = cfgs[int(rng.integers(0, len(cfgs)))]
+            ops.append(op)
+            exp.append((float(a32), float(b32), ["float32", "float", "float64"][ty]))
+        if not ops:
+            continue
+        try:
+            words = api.npu_generate_register_command_stream(ops, api.NpuAccelerator[opgen.ACC_API[acc]])
+        except Exception as e:
+            mech = "requant-register:generator-rejects-legal-operation:" + type(e).__name__
+            viol.setdefault(mech, {"mech": mech, "msg": str(getattr(e, "data", e))[:200], "witness": {"acc": acc, "scales": exp}})
+            continue
+        events, info = decode.decode_stream(words)
+        opev = [ev for ev in events if ev.kind == "op"]
+        if len(opev) != len(ops):
+            continue
+        for ev, (a, b, ty) in zip(opev, exp):
+            F = decode.Fields(ev.op)
+            counters["requant_registers_checked"] += 1
+            real = a / b  # double division of the two float32 values: TFLite's effective_scale
+            if float(np.float32(a) / np.float32(b)) != real:
+                counters["requant_inexact_float32_ratios"] += 1
+            got = Fraction(F.ofm_scale) / (Fraction(2) ** F.ofm_shift)
+            keys.add("rq:%s:%d" % (ty, F.ofm_shift))
+            exact = Fraction(a) / Fraction(b)
+            if not matches_ref(got, real):
+                mech = "requant-register:differs-from-reference-derivation:" + ty
+                viol.setdefault(mech, {"mech": mech, "msg": "ifm scale %r / ofm scale %r (%s): OFM_SCALE (%d, %d) denotes %.12g, reference QuantizeMultiplier(%.17g) = %s" % (
+                    a, b, ty, F.ofm_scale, F.ofm_shift, float(got), real, R.quantize_multiplier(real)), "witness": {"acc": acc, "ifm_scale": a, "ofm_scale": b, "type": ty}})
+            elif abs(got - exact) / exact > Fraction(1, 1 << 30):
+                mech = "requant-register:relative-error-above-bound:" + ty
+                viol.setdefault(mech, {"mech": mech, "msg": "ifm scale %r / ofm scale %r: relative error %.3g" % (a, b, float(abs(got - exact) / exact)), "witness": {"acc": acc, "ifm_scale": a, "ofm_scale": b}})
+            if sample is None:
+                sample = {"part": "quantreg", "ifm_scale": a, "ofm_scale": b, "ofm_scale_register": (F.ofm_scale, F.ofm_shift)}
+    return {"violations": list(viol.values()), "counters": counters, "keys": sorted(keys), "sample": sample}
+
+
 def run_case(case):
-    return {"scale": run_scale, "pool": run_pool, "eltwise": run_eltwise, "records": run_records, "regs": run_regs}[case["part"]](case)
+    return {"scale": run_scale, "pool": run_pool, "eltwise": run_eltwise, "records": run_records, "regs": run_regs, "quantreg": run_quantreg}[case["part"]](case)
 
 
 def summarise(agg, tier):
@@ -355,11 +454,11 @@ def summarise(agg, tier):
         "thresholds": {"scale_evaluations": 100000 if q else 10000000, "pool_windows": 2000 if q else 3000, "pool_accumulators": 1000000 if q else 5000000,
                        "eltwise_triples": 50000 if q else 1000000, "equal_scale_triples": 5000 if q else 100000,
                        "record_compilations": 60 if q else 1200, "scale_records_checked": 10000 if q else 250000,
-                       "register_ops_decoded": 3000 if q else 50000},
+                       "register_ops_decoded": 3000 if q else 50000, "requant_registers_checked": 500 if q else 30000, "requant_inexact_float32_ratios": 200 if q else 10000},
         "rule": "scale part: float32 mantissa sweep for 6 exponents (strided in quick), 181 exponents x sampled mantissas, boundaries, random doubles, each as "
                 "python float / np.float64 / np.float32; pool part: every window 1..1024 + sampled up to 65536, all reachable accumulators for small windows, ties beyond; "
                 "eltwise part: random (s1,s2,s_out) triples incl. equal scales, 8- and 16-bit; records part: packed 10-byte scale records of real compilations against "
-                "the reference derivation for the requesting operator. distinct = (exponent, low mantissa byte) classes + windows + triples",
+                "the reference derivation for the requesting operator; quantreg part: OFM_SCALE of re-quantising 1x1 average pools (fused QUANTIZE) emitted by the public generator for float32 / float / float64 scale pairs against QuantizeMultiplier(double(ifm)/double(ofm)). distinct = (exponent, low mantissa byte) classes + windows + triples",
         "assumptions": ["oracle = exact rational arithmetic + own port of TFLite QuantizeMultiplier; equality is on the denoted value m*2^-shift",
                         "where TFLite flushes (exponent < -31) only the 2^-31 error bound is required",
                         "average-pool oracle is the TFLite reference rounding (half away from zero), identical to round-half-up for non-negative accumulators (DESIGN 8)",
